@@ -47,7 +47,7 @@ func VerifC08enc() {
 	ndAssert("c08-json-invalid-emits-no-bytes", valid || len(j1) == 0)
 	ndAssert("c08-json-valid-equals-sibling", !valid || g1 || verifSameBytes(j1, j2))
 	ndCover("c08-enc-valid", valid && !f1 && !g1)
-	ndCover("c08-enc-invalid", !valid && f1)
+	ndCover("c08-enc-invalid", !valid && f1 && !f2 && c08onlyLifecycleWrong(c))
 }
 
 // verifDecodeInput prepares a CBOR (json=false) or JSON input for the generated claims-set:
